@@ -235,9 +235,9 @@ def penalise_savings(
 ) -> np.ndarray:
     if np.all(betas < 1e-8):
         penalised_savings = savings.sum(axis=1) - alpha
-    if np.all(betas == betas[0]):
-        penalised_saving_matrix = np.maximum(savings - betas[0], 0.0) - alpha
-        penalised_savings = penalised_saving_matrix.sum(axis=1)
+    elif np.all(betas == betas[0]):
+        penalised_saving_matrix = np.maximum(savings - betas[0], 0.0)
+        penalised_savings = penalised_saving_matrix.sum(axis=1) - alpha
     else:
         n_savings = savings.shape[0]
         penalised_savings = np.zeros(n_savings)
